@@ -245,7 +245,9 @@ class Prop(Check):
     THEOREMS = ["Cli.C30_args", "Cli.C30_args_each", "Cli.C30_args_value", "Cli.C30_args_pinned_false",
                 "Cli.C30_validate", "Cli.C30_validate_pinned_false", "Cli.C30_generate_reject",
                 "Cli.C30_generate_faithful", "Cli.C30_generate_calls", "Cli.C30_exit", "Cli.C30_exit_located",
-                "Cli.C30_check_mode"]
+                "Cli.C30_check_mode", "Cli.C30_args_all_lines", "Cli.C30_validate_error", "Cli.C30_generate_stops",
+                "Cli.C30_generate_reject_selected", "Cli.C30_generate_located", "Cli.C30_check",
+                "Cli.C30_check_located", "Cli.C30_args_click", "Cli.C30_click_adjacent_false"]
     DRIVER = "Drivers/Cli.lean"
     PROCS_THOROUGH = 4
     QUICK_CASES = 390   # + corpus < 400: one Lean driver process
@@ -260,13 +262,17 @@ class Prop(Check):
     MODELLED = ("hand-modelled: cli/generate.py argument loop, declared-parameter validation, per-file loop, no-model "
                 "branch; cli/check.py loop (Cli.parseArgs/validate/runGenerate/runCheck); tie X: exit status, generator "
                 "calls (file, kwargs), located error vs the model run on click's argument tuple and on load facts "
-                "obtained by loading each file directly; not exhibited: click's option parsing, the registry "
+                "obtained by loading each file directly; click stage (Cli.clickStrip, canonical spelling of click's "
+                "options): the tuple click hands over vs the model's stripping of the typed line; not exhibited: "
+                "click's other spellings (--opt=value, bundled short options, `--`), the registry "
                 "(importlib.metadata), model loading itself")
     ASSUMPTIONS = [
-        "click's parsing of its own options is trusted; the model starts from the `arguments` tuple click produces "
-        "(obtained from the real command object via make_context)",
+        "click's parsing of its own options is modelled for the canonical spelling only (separate tokens); the command "
+        "body's model runs on the `arguments` tuple click produces (obtained from the real command object via "
+        "make_context), which is also compared with the model's own stripping of the typed line",
         "values are passed with surrounding quote characters stripped (documented by the repo's own CLI test)",
-        "a bare flag directly followed by a file name is, by the CLI's syntax, a valued argument: such lines are not generated",
+        "a bare flag directly followed by a file name is, by the CLI's syntax, a valued argument (C30_args_all_lines: "
+        "every token list has exactly one reading): such lines are generated and expected to pass the file name as the value",
     ]
 
     # ------------------------------------------------------------------ gen
@@ -421,7 +427,12 @@ class Prop(Check):
             moved = False
             for i, e in enumerate(line):
                 if e[0] == "arg" and e[2] is None and i + 1 < len(line) and line[i + 1][0] == "file":
-                    line.append(line.pop(i))
+                    if r.chance(0.35):
+                        # the same tokens, read as the CLI's syntax reads them: the file name is the value
+                        line[i] = ["arg", e[1], {"file": line[i + 1][1]}]
+                        del line[i + 1]
+                    else:
+                        line.append(line.pop(i))
                     moved = True
                     break
             if not moved:
@@ -528,6 +539,7 @@ class Prop(Check):
                 "calls": calls,
                 "log": [[lvl, canon(msg)[:300]] for lvl, msg in cap.recs if lvl != "INFO" or msg.endswith(": OK.")],
                 "click": click_args,
+                "argv": [canon(a) for a in argv[1:]],
                 "facts": facts,
                 "out": canon(res.output)[:200],
             }
@@ -570,6 +582,8 @@ class Prop(Check):
             req.update(op="generate", args=obs["click"])
         else:
             req.update(op="check", order=obs["click"])
+        if "argv" in obs:
+            req["argv"] = obs["argv"]     # the click stage: the model strips click's own options itself
         return req
 
     @staticmethod
@@ -588,6 +602,8 @@ class Prop(Check):
     def compare(self, case, obs, out):
         if "err" in out:
             return f"model rejected the request: {out}"
+        if "click" in out and out["click"] != obs["click"]:
+            return f"argument tuple handed over by click: implementation {obs['click']}, model {out['click']}"
         if out["exit"] != obs["exit"]:
             return f"exit status: implementation {obs['exit']}, model {out['exit']}"
         errors = [m for lvl, m in obs["log"] if lvl == "ERROR"]
